@@ -42,9 +42,9 @@ ASSUMPTIONS = ["stages named by the property end where print_pqr is entered; I/O
                "outside its stage list and are not injected",
                "a fault swallowed by the code's own handler followed by a complete file is a legitimate success"]
 MIN = {"quick": {"success_cells": 330, "natural_faults": 25, "stage_faults_fired": 70, "line_faults_fired": 120,
-                 "failed_runs_checked": 200, "audit_events": 200, "option_lattice_runs": 150},
+                 "failed_runs_checked": 200, "audit_events": 200, "option_lattice_runs": 150, "assign_only_roundtrips": 15},
        "thorough": {"success_cells": 3000, "natural_faults": 200, "stage_faults_fired": 600, "line_faults_fired": 2500,
-                    "failed_runs_checked": 3000, "audit_events": 3000, "option_lattice_runs": 5000}}
+                    "failed_runs_checked": 3000, "audit_events": 3000, "option_lattice_runs": 5000, "assign_only_roundtrips": 1200}}
 
 NA_SUPPORT = {"AMBER": "ACGUT", "CHARMM": "ACGUT", "TYL06": "ACGUT", "PARSE": "ACGU"}
 SENTINEL = b"SENTINEL previous contents of the output path\n" * 3
